@@ -7,7 +7,7 @@ tables, R4 the group set-up protonates the atoms the count assumes.
 import ast
 import math
 
-from sa.astutil import (call_name, calls_in, dotted, norm, walk_no_nested, last_attr,
+from sa.astutil import (anorm, call_name, calls_in, dotted, norm, walk_no_nested, last_attr,
                         fact_texts, try_fold, literal, FoldError)
 from sa.consteval import eval_init, UNKNOWN
 from sa.loader import AnalysisError
@@ -88,7 +88,7 @@ def run(ctx):
                         why = 'no definition of %s before the call' % v
                 else:
                     why = 'position is not Vector(atom1=atom) + displacement'
-            pkey = 'position:%s:%s' % (qual, norm(c)[:50])
+            pkey = 'position:%s:%s' % (qual, anorm(c, fn)[:50])
             dup = sum(1 for o in ctx.obligations if o['key'].split('#')[0] == pkey)
             if dup:
                 pkey += '#%d' % (dup + 1)
